@@ -1,5 +1,5 @@
 """Property registry: which rules decide which property, and the text that goes to the evidence."""
-from .rules import facade, stateless
+from .rules import facade, stateless, facadevm
 
 TRUST_COMMON = [
     'rustc nightly 1.97 front end (name resolution, type check, MIR construction) — the facts',
@@ -32,7 +32,7 @@ def reg(p):
 
 
 reg(Prop('C13', 'proof',
-         [facade.rule_delegation, facade.rule_constructors, facade.rule_iso, facade.rule_no_downcast],
+         [facade.rule_delegation, facade.rule_constructors, facadevm.rule_iso_vm, facade.rule_no_downcast],
          'Decides the whole statement structurally. C-DELEGATION: every trait method that any concrete interpreter '
          'defines is defined by `impl LangInterpreter for Language` as `match self` with exactly one arm per variant, '
          'each arm calling the same-named trait method on the bound payload (resolved by rustc to that payload type\'s '
@@ -85,10 +85,10 @@ mtext('C14',
       'static analysis: trait-solver obligations (Freeze/Send/Sync) + whole-crate MIR effect inventory + static/unsafe inventory',
       'DESIGN.md §2 Family C, §4 C14')
 
-from .rules import builder  # noqa: E402
+from .rules import builder, dsvm  # noqa: E402
 
 reg(Prop('C12', 'other',
-         [builder.rule_fail_atomic, builder.rule_frozen_first, builder.rule_write_guarded, builder.rule_field_coverage],
+         [dsvm.rule_builder_cases, builder.rule_fail_atomic, builder.rule_frozen_first],
          'Decides structural clauses of the digit builder on its MIR, for symbolic arguments (public API): B3 no write through '
          'self can be followed by an Err exit in put/put_digit_at/push/fput/shift (failed operations change nothing; one named '
          'exception, the implicit-one push of shift, with its premises checked); B4 every mutator tests self.frozen on an edge '
@@ -111,10 +111,10 @@ def _c03_sites(ctx, rep):
 def _c03_premises(ctx, rep):
     """Premises the named (D6) instances of NumTracker::replace / number_advanced rely on: spans are enumerate
     indices, closed after each number, emitted once and in stream order."""
-    from .rules import scanner, policy
-    scanner.rule_occ_construction(ctx, rep)
-    policy.rule_policy_table(ctx, rep)
-    scanner.rule_iterator_structure(ctx, rep)
+    from .rules import scanvm
+    scanvm.rule_scanner_total(ctx, rep)
+    scanvm.rule_occurrence_wellformed(ctx, rep)
+    scanvm.rule_replace_tokenwise(ctx, rep)
 
 
 def _c12_sites(ctx, rep):
@@ -151,7 +151,7 @@ mtext('C12',
       'static analysis: MIR mutation/dominance analysis (write-before-Err reachability, guard dominance, who-writes) + panic-site prover',
       'DESIGN.md §2 B1 B3 B4 B5 B6, §4 C12')
 
-from .rules import scanner  # noqa: E402
+from .rules import scanner, scanvm, textvm  # noqa: E402
 
 
 def _arm_atomic(ctx, rep):  # A8b, evaluation based
@@ -168,27 +168,27 @@ def _sep_mark(ctx, rep):
     from .rules import lexeval
     lexeval.rule_sep_mark(ctx, rep)
 
-reg(Prop('C15', 'other', [scanner.rule_scanner_structure, scanner.rule_iterator_structure],
+reg(Prop('C15', 'other', [scanvm.rule_lazy_batch, scanvm.rule_token_hints],
          "Decides the driver structure of the token-stream contract on MIR: B14-SCANNER (FindNumbers::push) — \"-\" and whitespace tokens return before any state is touched; a not_a_number_part token can reach neither parser.push nor number_advanced, ends the number in progress and still updates `previous`; the word presented to the parser is the token's lowercase text or the constant \",\", the latter exactly under has_number() && nt_separated(previous); number_advanced is reachable only from Ok edges with the unmodified enumerate position; Err(Incomplete) neither advances, ends nor breaks; reject -> number_end -> retry with the token's own text; `previous` updated on every other path. B14-ITERATOR — lazy and batch drivers call the same push/finalize with the same arguments, the iterator tests has_matches() before reading and after every single token and returns pop() when true, finalizes on exhaustion, nothing is read by the constructor, the stream is read only by Iterator::next and track_numbers, both drain FIFO (pop_front / into over a push_back-only queue). Does NOT decide equality of the two result sequences for all streams nor the exact look-ahead bound (run-time quantities of the hold/release automaton)."))
-reg(Prop('C06', 'other', [scanner.rule_occ_construction, scanner.rule_decimal_entry, scanner.rule_reset_must, _sep_mark, _policy_table, scanner.rule_iterator_structure],
+reg(Prop('C06', 'other', [scanvm.rule_occurrence_wellformed, _sep_mark, scanvm.rule_decimal_scanner],
          "Decides the construction discipline of occurrences: B13 — Occurence is built at exactly one site with start/end copied from match_start/match_end and text/value/is_ordinal from the parameters; FindNumbers::number_end reads parser.is_ordinal() before string_and_value() (which resets) and passes the two components of that one result; number_advanced sets match_end = pos + 1 on every path and match_start only for an empty span; number_end closes the span on every path; FindNumbers::new is private and both callers pass input.enumerate(). B7-DECIMAL-ENTRY — decimal mode is entered only for a rejected word, not already decimal, non-empty non-ordinal integer part, separator word, and returns Incomplete (decimal xor ordinal). B7-RESET-MUST — the decimal formatter runs iff is_dec && !dec_part.is_empty(), with (int_part, dec_part). From these checked facts spans are increasing, disjoint, in-stream and begin/end on accepted word tokens (hand argument: match_start <= pos < match_end, match_start := match_end after each number). Does NOT decide value = read(text) numerically (std float parsing) nor numeral shape of the formatted text (see C04/C05 template rules)."))
-reg(Prop('C10', 'other', [scanner.rule_reset_must, scanner.rule_scratch_hygiene, builder.rule_field_coverage, _policy_table],
+reg(Prop('C10', 'other', [scanvm.rule_fresh_start, scanner.rule_scratch_hygiene, dsvm.rule_builder_cases],
          "Decides the absence of the carriers of cross-talk: B7-RESET-MUST (every path through string_and_value resets the parser after formatting), B6 (DigitString::reset covers all five fields; WordToDigitParser::reset covers all fields but lang), B7-SCRATCH-HYGIENE (typestate over the annotation passes: a scratch builder is Fresh whenever handed to apply, Dirty on a success edge until reset — the breach behind `du 109` vs `du 100 neuf`). Together with C09's B16 (a breaker forgets the last kind; on_hold is overwritten or taken on every path of number_end) nothing said several words earlier can reach a later number. Does NOT decide rewrite(A S B) = rewrite(A) S rewrite(B) itself, a relational property over pairs of runs."))
-reg(Prop('C07', 'other', [scanner.rule_shared_interpreter, _arm_atomic, builder.rule_fail_atomic, scanner.rule_scanner_structure, scanner.rule_reset_must],
+reg(Prop('C07', 'other', [scanner.rule_shared_interpreter, _arm_atomic, builder.rule_fail_atomic, scanvm.rule_scanner_validator],
          "Decides the mechanisms behind scanner/validator agreement: B15 (one interpreter, two drivers: apply is called only from exec_group, WordToDigitParser::push, the facade, the apply_decimal forwarders and the annotation passes; text2digits = exec_group over the lowercased, whitespace-split text + format_and_value), B3 (a rejected builder operation leaves no digits behind — the breach behind '1000000001 1000000000'), B14-SCANNER (reject -> number_end -> retry on the reset parser with the token's own text; Incomplete never advances a span so no span ends on a dangling conjunction), B7-RESET-MUST (the parser is reset by string_and_value before the retry). Does NOT decide the converse direction (every validated phrase is scanned as one number) nor threshold-0 completeness: both compare two run-time traversals of the word table."))
 
 from .rules import textflow  # noqa: E402
 
-reg(Prop('C11', 'other', [textflow.rule_case_flow, scanner.rule_shared_interpreter],
+reg(Prop('C11', 'other', [textflow.rule_case_flow, scanner.rule_shared_interpreter, scanvm.rule_case_scanner],
          "Decides B9 CASE-FLOW: at every vocabulary-lookup call site of the scanner, parser and annotation passes (apply, apply_decimal, is_linking, is_decimal_sep, get_morph_marker, WordToDigitParser::push) the word argument derives from text_lowercase()/to_lowercase(), a constant, or a parameter whose callers are checked; raw Token::text() flows only into case-blind uses (== \"-\", whitespace / alphabetic classification, trim() != \".\"); vocabulary literals in the annotation passes are compared with lowercase text; BasicToken.lowercase is only ever built from to_lowercase() and text_lowercase returns it; the validator lowercases the phrase before exec_group. Does NOT decide Unicode case-mapping corner cases nor user Token impls returning non-lowercase text."))
-reg(Prop('C17', 'other', [textflow.rule_ws_api, textflow.rule_tokenizer_tiling],
+reg(Prop('C17', 'other', [textflow.rule_ws_api, textvm.rule_tokenizer, scanvm.rule_ws_scanner],
          "Decides B10 WS-API (no ASCII-only whitespace facility — is_ascii_whitespace, split_ascii_whitespace, trim_ascii, split/trim on a single whitespace character literal, as call or as function item — anywhere in the library; the four classification sites resolve to the Unicode predicates) and B11 TOKENIZER-TILING (separator tokens are maximal non-alphanumeric runs, so any whitespace run stays inside one separator token, is skipped whole by the scanner's is_whitespace and is passed through verbatim). Does NOT decide invariance for mixed whitespace+punctuation separators in every context."))
-reg(Prop('C02', 'other', [textflow.rule_tokenizer_tiling, textflow.rule_replace_conserve, scanner.rule_occ_construction],
+reg(Prop('C02', 'other', [textvm.rule_tokenizer, textvm.rule_text_rewrite, scanvm.rule_replace_tokenwise],
          "Decides the three mechanisms of locality: B11 (match_word/match_sep return the position of the un-consumed peeked character or source.len(), Tokenize::next slices source[pos..end] unmodified and BasicToken stores it verbatim: tokens tile the input), B12 (occurrence spans are replaced by drain(start..end) + insert(start) in reverse order on the same vector, the drained tokens and the text go to Replace::replace unchanged; replace_numbers_in_stream scans input.iter() and replaces in that same input; replace_numbers_in_text is tokenize -> basic_annotate -> replace_numbers_in_stream -> join(\"\"); annotation passes only read the vector and mark through set_nan), B13 (spans come from enumerate indices). Does NOT decide equality replace_text(s,t) = splice(tokens, find_numbers(..)) as a whole for arbitrary UTF-8 (needs span correctness for all streams)."))
 
 from .rules import policy  # noqa: E402
 
-reg(Prop('C09', 'other', [policy.rule_threshold, policy.rule_policy_table, policy.rule_breaker_condition, textflow.rule_case_flow],
+reg(Prop('C09', 'other', [scanvm.rule_lone_policy],
          "Decides: B8 — the threshold field is never written after construction and read exactly once, as the right operand of a strict `value < threshold` conjoined with (one digit || ordinal) (the constant-false branch is taken exactly when neither); the flag is only passed to NumTracker::number_end where it is branched on once: true can only hold a number, false can only emit it — hence recognition is independent of the threshold, rewriting is monotone in it and t <= 0 or NaN rewrites everything (values are parses of digit strings, >= 0). B16 — the loop-free hold/release function is evaluated on all 24 finite-domain cases (last kind x held x ordinal x small) by an abstract interpreter over its MIR and compared with the table the statement prescribes; sequence_breaker only forgets the last kind. B8-BREAKER — the 8-row truth table of outside_number's condition over its three atoms (no alphabetic char, not a lone period, linking word). Does NOT decide the iff-characterisation of `isolated` over whole token streams (iterating the checked per-step table over unbounded streams is model checking)."))
 
 mtext('C15',
@@ -245,14 +245,14 @@ reg(Prop('C01', 'other', [lexeval.rule_lex_card, lexical.rule_scale_contexts, le
          "Decides the lexical mechanism of the cardinal round-trip: A1 — every core cardinal form of the frozen reference lexicon (7 languages, ~330 forms incl. plural/inflected scale words, regional tens, national variants) selects, through partial evaluation of the language's lemmatizer source, an arm of the word table whose placing leaves are exactly the instruction its class prescribes for its value (put of its digits; de/nl tens put_digit_at(d,1); lexical hundreds put d00; hundred/thousand/million/milliard shift 2/3/6/9; it mille put 1000; fr vigesimal triples with the 60/80/4 predecessor tests), and apply(word) evaluated on an abstract fresh builder returns Ok with that one instruction; A3 — splitter patterns and arm keys agree (every pattern has an arm, every compounding word is a pattern, patterns non-empty and distinct) and every piece of every generated compound spelling (de/it/nl, n <= 999 quick, <= 9999 thorough) selects an arm; A6 zero arms; A7 scale-word guards (3,5)/(6,8) and the unit/tens separation guards. Does NOT decide that the composition of correct instructions yields decimal(n) for every n < 10^12 and context, nor 'never split in two': that depends on run-time buffer contents."))
 reg(Prop('C04', 'other', [lexeval.rule_lex_ord, lexical.rule_group_ordinal, lexeval.rule_split_closure, builder.rule_frozen_first, lexeval.rule_sep_mark],
          "Decides the lexical mechanism of the ordinal round-trip: A2 — every core ordinal form and inflection of the reference lexicon (~750 forms) selects an arm whose placing leaves equal those of the cardinal of its rank; apply(form) evaluated on an abstract fresh builder (es 'segundo' after an ordinal) returns Ok, sets marker = Ordinal(<expected marker for that inflection>) — which evaluates the source of get_morph_marker and of the postlude on the form — and freezes the builder where the language does so; A3 closure for compound stems; B4 a frozen builder refuses every further word; A5 format_and_value renders digits followed by the marker. Does NOT decide the composition for every rank up to 10^6 (same reason as C01)."))
-reg(Prop('C05', 'other', [lexeval.rule_dec_table, lexeval.rule_sep_mark, scanner.rule_decimal_entry, scanner.rule_reset_must, builder.rule_field_coverage],
+reg(Prop('C05', 'other', [lexeval.rule_dec_table, lexeval.rule_sep_mark, scanvm.rule_decimal_scanner, dsvm.rule_builder_cases],
          "Decides: A4 (en/de decimal tables map each digit word to push(b\"d\"), zero synonyms share an arm, default NaN; fr/es/pt/it/nl apply_decimal forwards to apply verbatim), A5 (is_decimal_sep evaluates to true exactly on the separator word; the text template is {int}<mark>{dec} with mark '.' for English and ',' otherwise, filled with int.to_string(), dec.to_string() in that order; the value is the parse of {int}.{dec} of the same strings), B7-DECIMAL-ENTRY (decimal mode entered only for a rejected word, not already decimal, non-empty non-ordinal integer part, separator word; returns Incomplete — a separator with no number before it stays a word), B7-RESET-MUST (decimal formatter iff is_dec && !dec_part.is_empty(), otherwise the integer: nothing usable after the separator falls back to the integer; parser reset on every path), B6. Does NOT decide that arbitrary integer x fraction shapes round-trip (the fractional grammar of five languages goes through apply, i.e. C01's composition)."))
-reg(Prop('C08', 'other', [lexeval.rule_neg_contexts, lexical.rule_block_contexts, lexeval.rule_flags_lifecycle, lexeval.rule_conj, lexeval.rule_zero_arm, builder.rule_write_guarded],
+reg(Prop('C08', 'other', [lexeval.rule_neg_contexts, lexical.rule_block_contexts, lexeval.rule_flags_lifecycle, lexeval.rule_conj, lexeval.rule_zero_arm, dsvm.rule_builder_cases],
          "Decides A7 GUARD-ATOMS: every arm of each sibling class carries the class guard and side assignments that keep adjacent numbers apart (en units peek(2) != 10; es additionally != 20; pt units/teens/tens !smaller_blocked, hundreds !only_multipliers with the flag definitions and three-way flag update; it units peek(2) != 10, un*/otto* is_free(2), ordinal stems is_empty; de/nl units is_free(2) + to_block = TENS, tens !blocked(TENS); fr un..six guarded by their own Excludable bit, dix sets UN_SIX, tens set UN; thousand is_range_free(3,5), million (6,8); success stores / failure clears the flags), A10 (the conjunction is only ever Err(Incomplete) under the class guard), A6 (zero arms), B5 (overlap refusal and zero-only-while-empty inside the builder). Does NOT decide the 10^4-pair outcome table per language nor the grouping of dictated digit strings (needs execution of the guards on concrete buffers)."))
-reg(Prop('C16', 'other', [lexeval.rule_zero_arm, lexical.rule_zero_invariance, builder.rule_write_guarded, builder.rule_field_coverage],
+reg(Prop('C16', 'other', [lexeval.rule_zero_arm, lexical.rule_zero_invariance, dsvm.rule_builder_cases],
          "Decides: A6 (zero words select an unguarded put(b\"0\"), synonyms share the arm), B5 (a zero is accepted only on an empty buffer and counted; all-zero input refused otherwise), B6 (len/is_empty/to_string include the zero count, is_null does not; reset clears it), A9 (no guard or arm condition tests DigitString::len() for equality with a constant — the zero-sensitive single-digit test behind the rejected 'zero un milione'). Does NOT decide convert(zero^k spell(n)) = 0^k decimal(n) for all n (C01's composition)."))
 
-reg(Prop('C18', 'other', [lexeval.rule_o_annotate, lexeval.rule_zero_arm, lexeval.rule_dec_table, scanner.rule_scratch_hygiene, scanner.rule_scanner_structure],
+reg(Prop('C18', 'other', [lexeval.rule_o_annotate, lexeval.rule_zero_arm, lexeval.rule_dec_table, scanner.rule_scratch_hygiene, scanvm.rule_token_hints],
          "Decides: 'o' is a pattern of the very arm of 'zero' in apply and apply_decimal (treated exactly like zero); English::basic_annotate has the shape: candidate = tokens[i] with lowercase text \"o\"; it is marked not-a-number (the only set_nan in the pass) exactly in the else-branch of `(j > 0 && apply(tokens[S[j-1]]).is_ok()) || (j+1 < S.len() && apply(tokens[S[j+1]]).is_ok())` where S = indices of tokens that are not whitespace-only (Unicode predicate; punctuation counts as neighbour) and j enumerates S; the scratch builder is fresh at each apply (B7-SCRATCH-HYGIENE) and marked tokens never enter an occurrence (B14 S2). Does NOT decide the full neighbour-combination table, in particular neighbours that apply accepts only in some builder states."))
 
 mtext('C01',
